@@ -50,6 +50,10 @@ type Spec struct {
 	// format (it keeps the format of a file it finds), in which DESC in index
 	// definitions is ignored. 0: the current format (4).
 	SchemaFormat int `json:",omitempty"`
+	// TriggerNames: before the last table is created, a trigger of that very
+	// name is created on the first table (triggers have a namespace of their
+	// own: the table is still what its name refers to)
+	TriggerNames bool `json:",omitempty"`
 }
 
 var bulkExprs = []string{
@@ -128,6 +132,7 @@ func Gen(t *rapid.T, o Opts) Spec {
 		SchemaFormat: rapid.SampledFrom([]int{0, 0, 0, 0, 0, 0, 3, 2}).Draw(t, "schemaformat")}
 	used := map[string]bool{"other": true, "t2": true, "sqlite_master": true}
 	nt := rapid.IntRange(1, o.MaxTables).Draw(t, "ntables")
+	s.TriggerNames = nt > 1 && rapid.IntRange(0, 5).Draw(t, "triggernames") == 0
 	for ti := 0; ti < nt; ti++ {
 		ts := TableSpec{}
 		for {
@@ -269,7 +274,10 @@ func Gen(t *rapid.T, o Opts) Spec {
 // Statements renders the spec as the script SQLite runs.
 func (s Spec) Statements() []oracle.Stmt {
 	var out []oracle.Stmt
-	for _, ts := range s.Tables {
+	for i, ts := range s.Tables {
+		if s.TriggerNames && i > 0 && i == len(s.Tables)-1 {
+			out = append(out, oracle.Stmt{SQL: fmt.Sprintf("CREATE TRIGGER %s AFTER INSERT ON %s BEGIN SELECT 1; END", ts.Def.Ident.SQL, s.Tables[0].Def.Ident.SQL)})
+		}
 		out = append(out, oracle.Stmt{SQL: ts.Def.SQL()})
 	}
 	out = append(out, oracle.Stmt{SQL: "BEGIN"})
@@ -360,7 +368,11 @@ func Build(r *vt.Run, t vt.TB, env *sqdb.Env, s Spec, path string) (created []bo
 	}
 	for i, ts := range s.Tables {
 		_ = ts
-		created = append(created, res[2+i].Ok)
+		at := 2 + i
+		if s.TriggerNames && i > 0 && i == len(s.Tables)-1 {
+			at++ // (the trigger's statement stands before this table's)
+		}
+		created = append(created, res[at].Ok)
 	}
 	for _, x := range res {
 		if !x.Ok {
